@@ -94,6 +94,7 @@ def gen_case(seed, tier):
         "configs": "all",
         "aborts": "all",
         "load_replacement": rng.random() < 0.7,
+        "base_exc_parity": rng.choice([0, 1]),
     }
 
 
@@ -279,7 +280,7 @@ def _install_hook(txn, hook, counter):
         txn.check_delete_name(fire)
 
 
-def _run_write_txn(ctx, b, m, t, abort_at=None, hook=None, final=True):
+def _run_write_txn(ctx, b, m, t, abort_at=None, hook=None, final=True, base_exc=False):
     """Execute one write transaction.  abort_at=k: raise after k ops inside `with`.
     Returns the model after the transaction (unchanged model if not committed)."""
     res = ctx.res
@@ -307,6 +308,9 @@ def _run_write_txn(ctx, b, m, t, abort_at=None, hook=None, final=True):
             for k, op in enumerate(t["ops"]):
                 if abort_at is not None and k == abort_at:
                     res.faults.inc("exception_after_op_k")
+                    if base_exc:
+                        res.faults.inc("abort_by_non_Exception_BaseException")
+                        raise Z.PlannedBase("abort")
                     raise Z.Planned("abort")
                 w_before = work.copy() if final else None
                 ok = _exec_op(ctx, b, txn, work, op)
@@ -359,6 +363,9 @@ def _run_write_txn(ctx, b, m, t, abort_at=None, hook=None, final=True):
                         raise Violation("C10:own-writes", f"[{b.kind}] get_node({op.get('n')}) holds {len(gn.rdatasets)} rdatasets, model {len(node_model)}")
             if abort_at is not None and abort_at >= len(t["ops"]):
                 res.faults.inc("exception_after_op_k")
+                if base_exc:
+                    res.faults.inc("abort_by_non_Exception_BaseException")
+                    raise Z.PlannedBase("abort")
                 raise Z.Planned("abort")
             if t["end"] == "rollback":
                 res.faults.inc("explicit_rollback")
@@ -374,7 +381,7 @@ def _run_write_txn(ctx, b, m, t, abort_at=None, hook=None, final=True):
                 # publishes nothing); not covered by the property either way
                 committed = False
                 res.probes.inc("empty_replacement_is_noop")
-    except Z.Planned as e:
+    except (Z.Planned, Z.PlannedBase) as e:
         committed = False
         if str(e) == "hook":
             res.faults.inc("hook_exception_inside_op")
@@ -435,12 +442,15 @@ def _run_config(ctx, case, kind, relativize):
         n = len(t["ops"])
         aborts = case.get("aborts", "all")
         ks = list(range(n + 1)) if aborts == "all" else [k for k in aborts if k[0] == ti]
+        # the exception class alternates: odd abort indices leave the body through a
+        # BaseException that is not an Exception (KeyboardInterrupt-like)
+        flip = case.get("base_exc_parity", 1)
         if aborts == "all":
             for k in ks:
-                _run_write_txn(ctx, b, m, t, abort_at=k, final=False)
+                _run_write_txn(ctx, b, m, t, abort_at=k, final=False, base_exc=(k % 2 == flip))
         else:
             for _, k in ks:
-                _run_write_txn(ctx, b, m, t, abort_at=k, final=False)
+                _run_write_txn(ctx, b, m, t, abort_at=k, final=False, base_exc=(k % 2 == flip))
         if t.get("hook"):
             # the hook fault run never commits: if the hook does not fire the
             # body is left through an exception after the last operation
@@ -464,7 +474,7 @@ def run_case(case, keep_log=False):
             raise Violation("C10:configs-differ", f"final content differs between configurations: {[(k, Z.stable_hash(v)) for k, v in finals.items()]}")
     except Violation as v:
         res.violation = (v.cls if ":" in v.cls else "C10:" + v.cls, v.detail)
-    except Z.Planned as e:
+    except (Z.Planned, Z.PlannedBase) as e:
         res.violation = ("C10:planned-exception-leaked", str(e))
     log.add("final", sorted(Z.stable_hash(v) for v in finals.values()))
     res.digest = log.digest()
